@@ -250,6 +250,16 @@ def run_case(i):
             if exp != last:
                 res["changes"] += 1
             last = exp
+        # "updates only the rows needed": no record rewrites a row with the value it already holds
+        cur = {}
+        for (r_, t_, ty, v) in bd.lines:
+            if ty != bt:
+                continue
+            if cur.get(r_) == v:
+                res["viol"] = ("breakdown-redundant-row-update:%s" % mc,
+                               "breakdown row %d is written again with the value %d it already holds (t=%d)" % (r_, v, t_),
+                               {"row": r_, "time": t_}); return res
+            cur[r_] = v
         # every breakdown value labelled
         for (r_, t_, ty, v) in bd.lines:
             if v != 0 and bpcf.label(ty, v) is None:
